@@ -1,4 +1,4 @@
-CONSTANTS Threads = {1}  InIds = {"a", "b"}  OutIds = {"y2", "y3"}  MaxLen = 2  ReqsPerThread = 2  CheckDupsFirst = TRUE
+CONSTANTS Threads = {1}  InIds = {"a", "b"}  OutIds = {"y2", "y3"}  MaxLen = 2  ReqsPerThread = 2  MatchMode = "sorted_equal"
 INIT Init
 NEXT Next
 INVARIANT Emit
